@@ -146,7 +146,7 @@ func RandomType(r *Rand, c *TypeCfg, depth int, req schema.Req) *schema.Type {
 	}
 	form := ValForms[r.Intn(max)]
 	t := FormType(r, form, c, depth)
-	if req == schema.Optional && (t.IsScalar() || t.K == schema.String) && r.Chance(1, 2) {
+	if req == schema.Optional && (t.IsScalar() || t.K == schema.String || t.K == schema.Binary) && r.Chance(1, 2) {
 		t = schema.PtrTo(t)
 	}
 	return t
